@@ -6,7 +6,9 @@ random pages, empty interior and leaf nodes, points on voxel faces).  Correspond
 level_query on a BytesIO source against the model (same records, same order; same fetched ranges and chunk table;
 LaspyException <-> Err ELaspy), the model being fed with what is really in the file's bytes (pages parsed back, chunks
 decoded).  Search: brute-force oracle over the stored points with the half-step tolerance band, independent of the model;
-malformed page references under a watchdog."""
+malformed page references under a watchdog.  Round 4: "grid" files (stored points on adjacent grid steps of every axis)
+and boxes whose bounds lie at / around grid steps in the binary64 sense (`gen_gridstep_box`): what tells rounding to the
+nearest step from truncation / floor / ceiling of the box bounds."""
 import io
 import math
 import os
@@ -158,7 +160,7 @@ def install_http():
         C.requests = object()
 
 
-SOURCES = ["bytesio", "plain", "path", "http-queue/1", "http-queue/2", "http-queue/5", "http-executor/1", "http-executor/3"]
+SOURCES = ["bytesio", "plain", "path", "with-path", "http-queue/1", "http-queue/2", "http-queue/5", "http-executor/1", "http-executor/3"]
 
 
 def open_reader(raw, source="bytesio"):
@@ -170,7 +172,7 @@ def open_reader(raw, source="bytesio"):
         return C.CopcReader(SpySource(raw)), (lambda: None)
     if source == "plain":
         return C.CopcReader(PlainSource(raw)), (lambda: None)
-    if source == "path":
+    if source in ("path", "with-path"):     # with-path: the reader used as a context manager (`with CopcReader.open(p) as rd`)
         fd, path = tempfile.mkstemp(prefix="c15_", suffix=".copc.laz", dir="/var/tmp")
         with os.fdopen(fd, "wb") as fh:
             fh.write(raw)
@@ -179,13 +181,17 @@ def open_reader(raw, source="bytesio"):
 
         def cleanup():
             try:
-                if holder:
+                if holder and source == "with-path":
+                    holder[0].__exit__(None, None, None)
+                elif holder:
                     holder[0].source.close()
             finally:
                 if os.path.exists(path):
                     os.unlink(path)
         try:
             rd = C.CopcReader.open(path)
+            if source == "with-path":
+                rd = rd.__enter__()
         except BaseException:
             cleanup()
             raise
@@ -263,20 +269,61 @@ def cube_of(geo, k):
     return [(Fraction(geo["lo"][i]) + c * side, Fraction(geo["lo"][i]) + (c + 1) * side) for i, c in enumerate((x, y, z))]
 
 
-def pick_coord(rng, lo, hi, scale, off):
-    """an int32 X with lo <= X*scale+off <= hi (exact), biased to the faces; None when there is none"""
+def grid_range(lo, hi, scale, off):
+    """(xmin, xmax): the int32 steps X with lo <= X*scale+off <= hi (exact); xmin > xmax when there is none"""
     s, o = Fraction(scale), Fraction(off)
     xmin = math.ceil((lo - o) / s)
     xmax = math.floor((hi - o) / s)
-    xmin, xmax = max(xmin, I32_MIN), min(xmax, I32_MAX)
+    return max(xmin, I32_MIN), min(xmax, I32_MAX)
+
+
+def pick_coord(rng, lo, hi, scale, off, noisy=False):
+    """an int32 X with lo <= X*scale+off <= hi (exact), biased to the faces; None when there is none.
+    noisy: prefer a step whose real coordinate, divided back by the scale in binary64, does not land on the integer"""
+    xmin, xmax = grid_range(lo, hi, scale, off)
     if xmin > xmax:
         return None
+    if noisy:
+        for _ in range(24):
+            k = rng.randint(xmin, xmax)
+            if step_is_noisy(k, scale, off):
+                return k
     r = rng.random()
     if r < 0.2:
         return xmin
     if r < 0.4:
         return xmax
     return rng.randint(xmin, xmax)
+
+
+# ---- real coordinates AT and AROUND the steps of the integer grid, in the binary64 sense ------------------------------
+def step_to_real(k, fr, scale, off, route):
+    """the binary64 number a caller gets for (k + fr) steps: computed in binary64, correctly rounded from the exact
+    value, or typed as a decimal literal (0.29 for step 29 at scale 0.01)"""
+    if route == "float":
+        with np.errstate(all="ignore"):
+            return float((np.float64(k) + np.float64(fr)) * np.float64(scale) + np.float64(off))
+    if route == "dec":
+        from decimal import Decimal, localcontext
+        with localcontext() as c:
+            c.prec = 60
+            return float((Decimal(k) + Decimal(repr(float(fr)))) * Decimal(repr(float(scale))) + Decimal(repr(float(off))))
+    return float((Fraction(k) + Fraction(fr)) * Fraction(scale) + Fraction(off))
+
+
+def grid_quotient(b, scale, off):
+    """fl(fl(b - off) / scale): where binary64 arithmetic puts the real coordinate b on the grid"""
+    with np.errstate(all="ignore"):
+        return float((np.float64(b) - np.float64(off)) / np.float64(scale))
+
+
+def step_is_noisy(k, scale, off):
+    """some natural way of writing step k as a real coordinate does not divide back to the integer k exactly"""
+    for route in ("dec", "float"):
+        q = grid_quotient(step_to_real(k, 0.0, scale, off, route), scale, off)
+        if math.isfinite(q) and q != k and abs(q - k) < 1e-6:
+            return True
+    return False
 
 
 def gen_geometry(rng):
@@ -341,7 +388,7 @@ def shift_geometry(geo, dz_sides):
     return g
 
 
-def build_file(rng, malformed=None, depth=None, budget=None, geo=None):
+def build_file(rng, malformed=None, depth=None, budget=None, geo=None, grid=None):
     """returns dict(raw, geo, fmt, nodes={key: [tags]}, points={tag: (X,Y,Z,rec_bytes,key)}, spacing, hdr_z, label)"""
     laspy, C = _laspy()
     fmt = rng.choice([6, 7, 8])
@@ -354,19 +401,39 @@ def build_file(rng, malformed=None, depth=None, budget=None, geo=None):
     # ---- points
     node_pts = {}
     all_pts = []
+    centres = []        # tags of the points that have neighbours on the adjacent grid steps
+    if grid is None:
+        grid = (not malformed) and rng.random() < 0.3
     for k in keys:
         n = rng.choice([0, 0, 1, 2, 3, 5])
-        if k == (0, 0, 0, 0) and rng.random() < 0.5:
+        if k == (0, 0, 0, 0) and (grid or rng.random() < 0.5):
             n = max(n, 1)
         cube = cube_of(geo, k)
+        ranges = [grid_range(cube[i][0], cube[i][1], geo["scales"][i], geo["offsets"][i]) for i in range(3)]
         tags = []
-        for _ in range(n):
-            c = [pick_coord(rng, cube[i][0], cube[i][1], geo["scales"][i], geo["offsets"][i]) for i in range(3)]
+        for j in range(n):
+            cross = grid and (j == 0 or rng.random() < 0.25)
+            c = [pick_coord(rng, cube[i][0], cube[i][1], geo["scales"][i], geo["offsets"][i],
+                            noisy=cross and rng.random() < 0.6) for i in range(3)]
             if None in c:
                 continue
             tag = len(all_pts)
             all_pts.append((c[0], c[1], c[2], tag))
             tags.append(tag)
+            if cross:
+                # stored points exactly on the neighbouring steps (k - 1, k + 1, sometimes k +- 2) of every axis, in the
+                # same node (and inside its cube): what a box bound that lands one step off lets in or drops
+                centres.append(tag)
+                for i in range(3):
+                    for d in (-1, 1) + ((-2, 2) if rng.random() < 0.3 else ()):
+                        v = c[i] + d
+                        if ranges[i][0] <= v <= ranges[i][1]:
+                            nb = list(c)
+                            nb[i] = v
+                            t2 = len(all_pts)
+                            all_pts.append((nb[0], nb[1], nb[2], t2))
+                            tags.append(t2)
+        rng.shuffle(tags)
         node_pts[k] = tags
     recs = make_records(laspy, fmt, all_pts, rng)
     item_size = laspy.PointFormat(fmt).size
@@ -476,11 +543,12 @@ def build_file(rng, malformed=None, depth=None, budget=None, geo=None):
     assert out.tell() == start
     buf[:start] = out.getvalue()
     points = {p[3]: (p[0], p[1], p[2], recs[p[3]]) for p in all_pts}
-    label = f"fmt{fmt}/{geo['mode']}/depth{depth}/nodes{len(keys)}/pages{len(pages)}/pts{len(all_pts)}" + (f"/{malformed}" if malformed else "")
+    label = f"fmt{fmt}/{geo['mode']}/depth{depth}/nodes{len(keys)}/pages{len(pages)}/pts{len(all_pts)}" + ("/grid" if centres else "") \
+        + (f"/{malformed}" if malformed else "")
     return {"raw": bytes(buf), "geo": geo, "fmt": fmt, "nodes": node_pts, "points": points, "spacing": spacing,
             "hdr_z": (float(hdr.mins[2]), float(hdr.maxs[2])), "hdr_mins": [float(v) for v in hdr.mins],
             "hdr_maxs": [float(v) for v in hdr.maxs], "label": label, "item_size": item_size,
-            "root_ref": page_pos[0], "malformed": malformed, "keys": keys}
+            "root_ref": page_pos[0], "malformed": malformed, "keys": keys, "centres": centres}
 
 
 # ---- malformed hierarchies: one extra entry in the root page for a key that does not exist otherwise ------------------
@@ -594,13 +662,84 @@ def file_model(f):
 # ------------------------------------------------------------------------------------------------------
 # queries
 # ------------------------------------------------------------------------------------------------------
-def gen_box(rng, f):
+# fractions of a grid step a box bound is placed at, relative to a step k next to stored points: on the step, a hair
+# off it (the binary64 quotient is then not an integer), around the half step (the rounding decision; within 1e-6 of
+# the half step the property leaves the answer free), and most of a step away (where truncation, floor, ceiling and
+# rounding to nearest all part)
+GRID_FRACS = [0.0, 0.0, 0.0, 1e-13, -1e-13, 1e-9, -1e-9, 1e-4, -1e-4, 0.25, -0.25, 0.3, -0.3, 0.347, -0.403, 0.49, -0.49,
+              0.499999, -0.499999, 0.5, -0.5, 0.50001, -0.50001, 0.51, -0.51, 0.7, -0.7, 0.75, -0.75, 0.9, -0.9,
+              0.999, -0.999, 0.999999999, -0.999999999]
+_GRID_STATS = {}
+
+
+def grid_bound(rng, k, scale, off):
+    """a binary64 bound at / around step k: (k + fr) steps written in one of three ways, moved by 0..2 ulps"""
+    fr = rng.choice(GRID_FRACS)
+    route = rng.choice(["exact", "float", "dec"])
+    b = step_to_real(k, fr, scale, off, route)
+    n = rng.choice([0, 0, 0, 0, 1, -1, 2, -2])
+    for _ in range(abs(n)):
+        b = math.nextafter(b, math.inf if n > 0 else -math.inf)
+    q = grid_quotient(b, scale, off)
+    cls = "fr=0" if fr == 0 else ("|fr|<1e-3" if abs(fr) < 1e-3 else ("|fr|<0.5" if abs(fr) < 0.5 else
+                                                                      ("|fr|~0.5" if abs(fr) < 0.5001 else "|fr|>0.5")))
+    _GRID_STATS["grid bound " + cls] = _GRID_STATS.get("grid bound " + cls, 0) + 1
+    if math.isfinite(q) and q != math.floor(q):
+        key = "grid bound: quotient just off an integer" if abs(q - round(q)) < 1e-6 else "grid bound: quotient fractional"
+        _GRID_STATS[key] = _GRID_STATS.get(key, 0) + 1
+        if math.trunc(q) != round(q):
+            _GRID_STATS["grid bound: trunc != nearest"] = _GRID_STATS.get("grid bound: trunc != nearest", 0) + 1
+    _GRID_STATS["grid bound " + ("negative" if q < 0 else "non-negative") + " step"] = \
+        _GRID_STATS.get("grid bound " + ("negative" if q < 0 else "non-negative") + " step", 0) + 1
+    return b
+
+
+def gen_gridstep_box(rng, f, dims):
+    """every bound of every axis independently: wide, or AT / AROUND a grid step next to a stored point that has
+    neighbours on the adjacent steps (k - 1, k, k + 1 of that point's coordinate, plus a fraction of a step)"""
+    geo = f["geo"]
+    pts = f["points"]
+    centres = f.get("centres") or list(pts)
+    p = pts[rng.choice(centres)]
+    q = pts[rng.choice(centres)] if rng.random() < 0.5 else pts[rng.choice(list(pts))]
+    sc, of = geo["scales"], geo["offsets"]
+    lo = geo["lo"]
+    hi = [l + geo["side"] for l in lo]
+    mins, maxs = [], []
+    anchored = 0
+    modes = [[rng.choice(["p", "p", "q", "wide", "wide"]) for _side in range(2)] for _i in range(3)]
+    if all(m == "wide" for ax in modes[:dims] for m in ax):
+        modes[rng.randrange(dims)][rng.randrange(2)] = "p"
+    for i in range(3):
+        pair = []
+        for side, m in enumerate(modes[i]):
+            if m == "wide":
+                far = rng.choice([1.0, geo["side"], 1e6, 1e30, math.inf])
+                pair.append(lo[i] - far if side == 0 else hi[i] + far)
+            else:
+                src = p if m == "p" else q
+                k = src[i] + rng.choice([-1, 0, 0, 0, 1, 1, 2, -2])
+                pair.append(grid_bound(rng, k, sc[i], of[i]))
+                anchored += 1
+        if pair[0] > pair[1]:
+            pair.reverse()
+        mins.append(pair[0])
+        maxs.append(pair[1])
+    return [float(v) for v in mins[:dims]], [float(v) for v in maxs[:dims]]
+
+
+def gen_box(rng, f, kind=None):
     geo = f["geo"]
     lo = geo["lo"]
     side = geo["side"]
     hi = [l + side for l in lo]
-    kind = rng.choice(["inside", "inside", "straddle", "enclose", "disjoint", "huge", "inf", "face", "face", "point",
-                       "halfstep", "touch", "hdr"])
+    if kind is None:
+        kind = rng.choice(["inside", "inside", "straddle", "enclose", "disjoint", "huge", "inf", "face", "face", "point",
+                           "halfstep", "touch", "hdr", "gridstep", "gridstep", "gridstep"])
+    if kind == "gridstep":
+        if not f["points"]:
+            return gen_box(rng, f)
+        return gen_gridstep_box(rng, f, rng.choice([2, 3, 3]))
     if geo["mode"] == "edge" and rng.random() < 0.3:
         kind = "gridedge"
     dims = rng.choice([2, 3, 3])
@@ -692,8 +831,8 @@ def gen_levels(rng, f):
     return ("S", float(res))
 
 
-def gen_query(rng, f):
-    box = gen_box(rng, f) if rng.random() < 0.8 else None
+def gen_query(rng, f, box_kind=None):
+    box = gen_box(rng, f, box_kind) if (box_kind is not None or rng.random() < 0.8) else None
     lv = gen_levels(rng, f) if (box is None or rng.random() < 0.6) else ("A",)
     if box is None and lv == ("A",) and rng.random() < 0.5:
         lv = gen_levels(rng, f)
@@ -793,7 +932,7 @@ def run_impl(reader_or_raw, q, spy=False, source="bytesio", bounds=None, level=N
         info["error"] = f"{type(ex).__name__}: {ex}"[:300]
         return ("e", common.exc_kind(ex), None)
     finally:
-        if cleanup is not None and source == "path":
+        if cleanup is not None and source in ("path", "with-path"):
             cleanup()
 
 
@@ -999,6 +1138,15 @@ def make_cases(ctx):
     for depth, budget in [(0, 1), (1, 9), (5, 40)]:
         f = build_file(rng, depth=depth, budget=budget)
         cases.append((f, [(None, ("A",))] + [gen_query(rng, f) for _ in range(6)]))
+    # grid files: points with neighbours on the adjacent grid steps of every axis (in the root node and below), centres
+    # preferably on steps whose real coordinate does not divide back to an integer in binary64; asked boxes whose
+    # bounds are AT and AROUND those steps, mins and maxs and the three axes independently
+    for _ in range(ctx.n(14, 120)):
+        f = build_file(rng, grid=True, depth=rng.choice([0, 1, 1, 2, 3]), budget=rng.choice([1, 3, 8, 14]))
+        if not f["points"]:
+            continue
+        qs = [gen_query(rng, f, box_kind="gridstep") for _ in range(ctx.n(14, 30))]
+        cases.append((f, qs))
     # tiles: files that share the x / y window of their root cube (the same cube, or the cube moved up / down by whole
     # sides) and differ in content and z range; the same queries are asked of every file of the family
     for _ in range(ctx.n(10, 60)):
@@ -1043,6 +1191,9 @@ def make_cases(ctx):
             away = ([float(c[0]) + shrink for c in oc], [float(c[1]) - shrink for c in oc])
             cases.append((f, [(None, ("A",)), (inside_bad, ("A",)), (away, ("A",)), (None, ("I", 0)), (None, ("R", 0, 2)),
                               gen_query(rng, f)]))
+    for k, v in _GRID_STATS.items():
+        ctx.count(k, v)
+    _GRID_STATS.clear()
     _SESSIONS = sessions
     return cases
 
@@ -1060,10 +1211,15 @@ def correspond(ctx):
         "chunks and pages shuffled with gaps (chunks in any order, not level by level); families of tiles (the same x / y "
         "window, other content and z range) asked the same queries; queries: boxes inside / straddling / enclosing / "
         "disjoint / 1e30,1e300 / +-inf / "
-        "on voxel faces / touching from outside / on point coordinates / half a step off points / header bounds, 2-D and 3-D, "
+        "on voxel faces / touching from outside / on point coordinates / half a step off points / header bounds / bounds AT "
+        "and AROUND grid steps in the binary64 sense ((k + fr) steps for fr = 0, +-1e-13..1e-4, +-0.25..0.49, 0.5 +- 1e-5, "
+        "+-0.51..0.999999999, written by binary64 arithmetic, by correct rounding of the exact value or as a decimal literal, "
+        "moved by 0..2 ulps; mins and maxs and the three axes independently; negative and positive steps; k next to stored "
+        "points that have neighbours on the steps k-1, k+1 (k+-2) of every axis, centres preferably on steps whose real "
+        "coordinate does not divide back to an integer, 0.29 / 0.01), 2-D and 3-D, "
         "level None / int / range (also empty) / resolution at and away from powers of two; malformed: self reference, page "
         "without the key, chained reference, beyond EOF, cut entry, mutually resetting pages. Sources: BytesIO, file object "
-        "without readinto, path on disk, http (queue and executor strategy, 1..5 workers, in-process server). Histories: one "
+        "without readinto, path on disk (also as a context manager), http (queue and executor strategy, 1..5 workers, in-process server). Histories: one "
         "reader for many queries; ONE Bounds object (float64 / float32 / int64 arrays) and one level object handed to the "
         "queries of several files in turn, the Bounds object and the reader's header compared before / after every call. "
         "non-trivial = malformed, or the "
